@@ -5,7 +5,7 @@ import random
 
 import z3
 
-from harness.common import Ctx, byte_obligation, io_cases, mi, read_scenario
+from harness.common import Ctx, byte_obligation, fault_finish, fault_mode, io_cases, mi, read_scenario
 from oracles.mem import SymMem, SymOpaque
 from oracles import vdi as spec
 from symx import core, files, layouts, loader
@@ -72,6 +72,9 @@ def read_task(prop, cfg, tier, seed):
     cfg.setdefault("pins", {})
     ctx = Ctx(prop, "vdi.read", cfg, tier, seed, engine_kw=dict(max_decisions=cfg.get("max_decisions", 400)))
     rng = random.Random(seed)
+    fault = bool(cfg.get("fault"))
+    if fault:
+        fault_mode(ctx)
     touched = N + 1
     fsize = 1 << 62
 
@@ -84,11 +87,13 @@ def read_task(prop, cfg, tier, seed):
         disk_size = files.word_at("img", 368, 8, "le")
         nblocks = files.word_at("img", 384, 4, "le")
         extra = files.word_at("img", 380, 4, "le")
-        E.assume(extra == 0)
+        if not fault:
+            E.assume(extra == 0)
         E.assume(disk_size >= 512)
         E.assume(disk_size <= 1 << 50)
         E.assume(disk_size % 512 == 0)
-        E.assume(nblocks * bs >= disk_size)  # the block map covers the disk
+        if not fault:
+            E.assume(nblocks * bs >= disk_size)  # the block map covers the disk
         E.assume(hdr_blocks_off >= 512)
         offset = E.var("offset", 0, 1 << 50)
         length = E.var("length", 512, N * bs)
@@ -100,7 +105,8 @@ def read_task(prop, cfg, tier, seed):
         b0 = offset // bs
         for k in range(touched):
             e = files.word_at("img", hdr_blocks_off + 4 * (b0 + k), 4, "le", signed=True)
-            E.assume(e >= -2)
+            if not fault:
+                E.assume(e >= -2)
         j = E.var("j", 0, 1 << 50)
         vars_ = dict(offset=offset, length=length, disk_size=disk_size, blocks_off=hdr_blocks_off, data_off=hdr_data_off,
                      nblocks=nblocks, j=j)
@@ -121,6 +127,8 @@ def read_task(prop, cfg, tier, seed):
         ctx.scenario.small = [nblocks]
         obj = m.VDI(fh, parent)
         res = obj._read(offset, length)
+        if fault:
+            return fault_finish(ctx, E, res, length, bs)
         sv = spec.guest_byte(offset + j, hdr_blocks_off, hdr_data_off, bs, mem, par)
         bad = byte_obligation(res, j, explen, sv, extra=[obj.size != disk_size], maxlen=length if cfg.get("tail") else None)
         if cfg.get("io"):
